@@ -309,15 +309,29 @@ impl World {
             self.shared.lock().unwrap().counts.clear();
             from = self.cluster.log_len();
         }
-        match self.refresh("fault-free refresh").await {
-            Err(e) => {
-                complaints.push(("control:liveness:refresh-did-not-return".to_string(), e));
-                return Ok((complaints, "hang".into()));
+        // after a connection reset the control connection is re-established in the background: the follow-up refresh
+        // may be asked again until the liveness deadline; otherwise one fault-free refresh must succeed
+        let after_reset = case.fault.as_ref().map(|f| f.2 == "reset").unwrap_or(false);
+        let t0 = std::time::Instant::now();
+        loop {
+            match self.refresh("fault-free refresh").await {
+                Err(e) => {
+                    complaints.push(("control:liveness:refresh-did-not-return".to_string(), e));
+                    return Ok((complaints, "hang".into()));
+                }
+                Ok(Err(_)) if after_reset && t0.elapsed() < DEADLINE => {
+                    if !outcome.ends_with(":follow-up-refresh-retried") {
+                        outcome.push_str(":follow-up-refresh-retried");
+                    }
+                    self.shared.lock().unwrap().counts.clear();
+                    tokio::task::yield_now().await;
+                }
+                Ok(Err(e)) => {
+                    complaints.push(("control:refresh-failed".to_string(), format!("a fault-free metadata refresh failed: {e}")));
+                    break;
+                }
+                Ok(Ok(())) => break,
             }
-            Ok(Err(e)) => {
-                complaints.push(("control:refresh-failed".to_string(), format!("a fault-free metadata refresh failed: {e}")));
-            }
-            Ok(Ok(())) => {}
         }
         complaints.extend(self.check_state());
         // after a connection reset the driver may fetch more than once (new control connection); the exact frame
@@ -343,11 +357,16 @@ fn gen_cases(max_peers: usize, faults: bool, thorough: bool) -> Vec<CcCase> {
             v.push(CcCase { peers, splits: sp, fault: None });
         }
         if faults {
-            // one fault on every page of every split of system.peers (and of system.local / columns in thorough)
-            let fault_tables: Vec<&str> = if thorough { vec!["system.peers", "system.local", "system_schema.columns"] } else { vec!["system.peers"] };
-            for ft in fault_tables {
+            // one fault on every page of the splits of system.peers: quick the 40 simplest splits per cluster size,
+            // thorough every split up to 4 peers (40 simplest for 5); thorough also system.local and
+            // system_schema.columns (100 simplest splits) on the 2-node cluster
+            let mut fault_tables: Vec<(&str, usize)> = vec![("system.peers", if thorough && peers <= 4 { usize::MAX } else { 40 })];
+            if thorough && peers == 1 {
+                fault_tables.push(("system.local", usize::MAX));
+                fault_tables.push(("system_schema.columns", 100));
+            }
+            for (ft, cap) in fault_tables {
                 let l = &lists.iter().find(|(t, _)| *t == ft).unwrap().1;
-                let cap = if thorough { l.len() } else { l.len().min(40) };
                 for (i, s) in l.iter().take(cap).enumerate() {
                     for p in 0..s.len() {
                         for kind in ["invalid", "delay", "reset"] {
@@ -488,8 +507,8 @@ fn main() {
     let thorough = r.tier().is_thorough();
     let max_peers = r.args.extra_value("--peers").and_then(|s| s.parse().ok()).unwrap_or(if thorough { 5 } else { 4 });
     let mut cases = gen_cases(max_peers, true, thorough);
-    // biggest clusters first: the long blocks start early; within a size the enumeration order (simplest first) is kept
-    cases.sort_by_key(|c| std::cmp::Reverse(c.peers));
+    // smallest clusters first, within a size fault-free before faulted (stable: simplest splits first)
+    cases.sort_by_key(|c| (c.peers, c.fault.is_some()));
     let total = cases.len();
     for c in cases.iter().step_by((total / 4).max(1)).take(4) {
         r.sample(c.json());
